@@ -71,5 +71,6 @@ int run_ts(int argc, char** argv);
 int run_dec(int argc, char** argv);
 int run_exp(int argc, char** argv);
 int run_rd(int argc, char** argv);
+int run_tbl(int argc, char** argv);
 
 }  // namespace vh
